@@ -28,6 +28,9 @@ CHECKS = {
  "C12": ("exploration", "trace results vs equivalence classes of an independent union-find over hierarchical wires, every hwire/hpin as start",
          "get_hwires/get_hcables (ALL/INSIDE/OUTSIDE/BOTH), get_hpins(hwire), get_hports(hwire) from every hierarchical wire and pin of generated netlists must equal the oracle's classes exactly, without duplicates.",
          "net classes derived through the public read API only", "4 C12"),
+ "C07": ("exploration", "closure / canonical-form / snapshot / independence monitors around clone() for every root kind",
+         "netlist clones: no shared object with the source, self-contained, positionally identical canonical form, same query answers, source snapshot unchanged, random edits and uniquify/flatten on one side never show in the other; sub-netlist clones checked against their documented bullet lists incl. exact reference-set bookkeeping; no mutable user-data value shared.",
+         "roots are elements of well-formed netlists; known finding clone-not-registered-in-namespace fences exact-name lookups on clones (wildcard lookups compared instead)", "4 C07"),
 }
 NA = {}
 fixes = subprocess.run(["git", "-C", "/repo", "log", "--format=%h %s"], capture_output=True, text=True).stdout.splitlines()
